@@ -428,6 +428,107 @@ def its_failure_results(repo, tier="quick"):
     return _IFCACHE[key]
 
 
+PAIR_ALPHABET = ["1A", "1P", "1O", "1S", "2B", "2P", "2O", "2S", "2Q"]
+
+
+def pair_sequences(max_len):
+    out = []
+    for n in range(2, max_len + 1):
+        for seq in itertools.product(PAIR_ALPHABET, repeat=n):
+            if len(set(x[0] for x in seq)) < 2:
+                continue
+            ok = True
+            for who in "12":
+                if not legal(tuple(x[1] for x in seq if x[0] == who)):
+                    ok = False
+            if ok:
+                out.append(seq)
+    return out
+
+
+def _pair_chunk(seqs):
+    """Two solver objects of one class used alternately: each tracks its own assertions (nothing of the tracking is shared
+    between the objects)."""
+    repo = get_repo()
+    repo.add_virtual(PROBE_MOD, PROBE_SRC)
+    shape = Shape(("And", S("a"), S("b"), S("c")))
+
+    def call(w, it, f):
+        it.apply_decorators = {"pysmt.decorators.clear_pending_pop"}
+        a, b, c = w.nargs(f)
+        logic = it.module_global(w.repo.modules["pysmt.logics"], "QF_BOOL")
+        out = []
+        for seq in seqs:
+            problems = []
+            try:
+                logs = {"1": [], "2": []}
+                solvers = dict((k_, it.instantiate(ClassRef(PROBE_MOD + ".ProbeSolver"), [w.env, logic, logs[k_], [True, False] * (len(seq) + 1)], {}))
+                               for k_ in "12")
+                refs = {"1": [[]], "2": [[]]}
+                for i, tok in enumerate(seq):
+                    who, x = tok[0], tok[1]
+                    sv, ref = solvers[who], refs[who]
+                    n_log = len(logs[who])
+                    if x in ("A", "B"):
+                        fm = a if x == "A" else b
+                        it.call(it.getattr(sv, "add_assertion"), [fm])
+                        ref[-1].append(fm)
+                    elif x == "P":
+                        it.call(it.getattr(sv, "push"), [])
+                        ref.append([])
+                    elif x == "O":
+                        it.call(it.getattr(sv, "pop"), [])
+                        ref.pop()
+                    elif x == "S":
+                        it.call(it.getattr(sv, "solve"), [])
+                    elif x == "Q":
+                        it.call(it.getattr(sv, "is_sat"), [c])
+                    for k_ in "12":
+                        live = [g for fr in refs[k_] for g in fr]
+                        if k_ == who and x in ("S", "Q"):
+                            solves = [e for e in logs[k_][n_log:] if e[0] == "solve"]
+                            want = live + ([c] if x == "Q" else [])
+                            if len(solves) != 1 or [id(g) for g in solves[0][1]] != [id(g) for g in want]:
+                                problems.append("step %d: solver %s solves %s, its live assertions are %s"
+                                                % (i, k_, _names(w, list(solves[0][1])) if solves else "nothing", _names(w, want)))
+                        got = it.iterate(it.getattr(solvers[k_], "assertions")) if not (k_ != who and solvers[k_].attrs.get("pending_pop")) else None
+                        if got is not None and [id(g) for g in got] != [id(g) for g in live]:
+                            problems.append("after step %d (solver %s: %s): solver %s reports the assertions %s, it holds %s"
+                                            % (i, who, NAMES.get(x, x), k_, _names(w, got), _names(w, live)))
+                    if problems:
+                        break
+                out.append((seq, "ok" if not problems else "bad", problems))
+            except AbsRaise as ex:
+                out.append((seq, "raise", ["%s%s after %s" % (ex.cls_name, proc._args(ex), list(seq))]))
+            except Unsupported as ex:
+                out.append((seq, "unsupported", [str(ex)]))
+        return out
+
+    def post(w, f, val, facts):
+        return proc.ProcResult(shape, "valid", val)
+    res = proc.run_proc(shape, call, post=post, services="full", max_paths=4,
+                        interp_kwargs={"max_steps": 6000000, "max_loop": 100000})
+    if len(res) != 1 or res[0].kind != "valid":
+        r = res[0]
+        return [(seq, "unsupported", ["%s %s" % (r.kind, str(r.detail)[:200])]) for seq in seqs]
+    return res[0].detail
+
+
+_PCACHE = {}
+
+
+def pair_results(repo, tier="quick"):
+    key = (repo.root, tier)
+    if key not in _PCACHE:
+        seqs = pair_sequences(4 if tier == "quick" else 5)
+        chunks = [seqs[i:i + 60] for i in range(0, len(seqs), 60)]
+        out = []
+        for r in parallel_map(_pair_chunk, chunks):
+            out.extend(r)
+        _PCACHE[key] = out
+    return _PCACHE[key]
+
+
 _CACHE = {}
 
 
